@@ -36,10 +36,12 @@ struct Cfg {
     thorough_only: Vec<String>,
     /// "kind:rule" pairs not emitted at all (e.g. a token-children harness for a rule that has no child tokens)
     skip_kinds: Vec<String>,
+    /// `//! tier: thorough` — every harness of this grammar runs in the thorough tier only
+    all_thorough: bool,
 }
 
 fn header(text: &str) -> Cfg {
-    let mut c = Cfg { alphabet: "abx".into(), n: (3, 4), entries: None, kinds: vec!["c01".into()], variants: vec![], unwind: None, known: vec![], kinds_given: false, nparse: None, real_stack: false, thorough_only: vec![], skip_kinds: vec![] };
+    let mut c = Cfg { alphabet: "abx".into(), n: (3, 4), entries: None, kinds: vec!["c01".into()], variants: vec![], unwind: None, known: vec![], kinds_given: false, nparse: None, real_stack: false, thorough_only: vec![], skip_kinds: vec![], all_thorough: false };
     for l in text.lines() {
         let l = l.trim();
         if let Some(r) = l.strip_prefix("//! alphabet:") {
@@ -48,6 +50,8 @@ fn header(text: &str) -> Cfg {
         } else if let Some(r) = l.strip_prefix("//! n:") {
             let v: Vec<usize> = r.split_whitespace().map(|x| x.parse().unwrap()).collect();
             c.n = (v[0], *v.get(1).unwrap_or(&v[0]));
+        } else if let Some(r) = l.strip_prefix("//! tier:") {
+            c.all_thorough = r.trim() == "thorough";
         } else if let Some(r) = l.strip_prefix("//! skip_kinds:") {
             c.skip_kinds = r.split_whitespace().map(String::from).collect();
         } else if let Some(r) = l.strip_prefix("//! thorough_only:") {
@@ -451,7 +455,7 @@ fn generate(name: &str, text: &str) -> String {
                         "c04" => format!(", {}", matches!(r.ty, RuleType::Atomic | RuleType::CompoundAtomic)),
                         _ => String::new(),
                     };
-                    let slow = cfg.thorough_only.iter().any(|x| x == &format!("{}:{}", k, r.name));
+                    let slow = cfg.all_thorough || cfg.thorough_only.iter().any(|x| x == &format!("{}:{}", k, r.name));
                     let (t, kdesc) = match known {
                         Some((_, _, id)) => ("K".to_string(), format!(" - twin of known finding {}, expected to FAIL", id)),
                         None => (if slow { "T".to_string() } else { tier.to_string() }, String::new()),
